@@ -71,7 +71,7 @@ func (g *fgen) genTinfo(n int) {
 		node.mu.Unlock()
 		var id Byte32
 		copy(id[:], t.token)
-		client := NewClient(node.srv.URL, "", 10)
+		client := NewClient(node.srv.URL, node.key, 10)
 		res := "err"
 		func() {
 			defer func() {
@@ -277,7 +277,7 @@ func (g *fgen) pipeCase(mode string) {
 				r.perturb(g.pick(0, 0, 0, 4))
 			}
 			cur = r.interestingHeight(cur)
-			r.heightTick(cur)
+			r.heightTick(cur, false)
 		}
 	}
 	// drain: one more quiet fetch tick, then the chain moves far ahead with every block canonical
@@ -286,7 +286,7 @@ func (g *fgen) pipeCase(mode string) {
 	}
 	for s := 0; s < 2 && !r.exited; s++ {
 		r.settle()
-		r.heightTick(1000 + int32(s))
+		r.heightTick(1000+int32(s), true)
 	}
 	r.stop()
 }
